@@ -86,7 +86,27 @@ func isTreeCall(in ssa.Instruction, field, method string) bool {
 }
 
 func isDiscard(in ssa.Instruction) bool {
-	return isTreeCall(in, "sendQueue", "DeleteAll") || isTreeCall(in, "sendBuf", "DeleteAll")
+	if isTreeCall(in, "sendQueue", "DeleteAll") || isTreeCall(in, "sendBuf", "DeleteAll") {
+		return true
+	}
+	// a call of a helper that does the discarding (the tail of Close split off)
+	if cl, ok := in.(*ssa.Call); ok {
+		if sc := cl.Common().StaticCallee(); sc != nil && sc.Blocks != nil && sc.Object() != nil && !sc.Object().Exported() && !anchorNames[sc.Name()] && relPkg(sc) == protoPkg {
+			return discardsInside(sc) > 0
+		}
+	}
+	return false
+}
+
+// discardsInside counts the DeleteAll calls on sendQueue / sendBuf in fn itself.
+func discardsInside(fn *ssa.Function) int {
+	n := 0
+	instrs(fn, func(_ *ssa.BasicBlock, _ int, in ssa.Instruction) {
+		if isTreeCall(in, "sendQueue", "DeleteAll") || isTreeCall(in, "sendBuf", "DeleteAll") {
+			n++
+		}
+	})
+	return n
 }
 
 func r03_1(c *RC) {
@@ -100,11 +120,9 @@ func r03_1(c *RC) {
 	att, _ := constOf(p, protoPkg, "sessionAttached")
 	est, _ := constOf(p, protoPkg, "sessionEstablished")
 	nd := 0
-	instrs(fn, func(_ *ssa.BasicBlock, _ int, in ssa.Instruction) {
-		if isDiscard(in) {
-			nd++
-		}
-	})
+	for _, f := range withHelpers(p, fn, 1) {
+		nd += discardsInside(f)
+	}
 	if nd < 2 {
 		c.Bad("discard-sites", fn.Pos(), "closeWithError no longer discards both sendQueue and sendBuf (%d DeleteAll calls): retransmission would continue after close", nd)
 		return
